@@ -996,3 +996,19 @@ Example ex_hidden_hyps :
   | COk l => existsb (fun x => negb (cd_hidden x)) l = true
   | _ => False end.
 Proof. vm_compute. reflexivity. Qed.
+
+(** the converse of the hidden rule, as the code has it: when no raw candidate is visible the hidden
+    ones are all kept (up to the de-duplication by id, first one wins) *)
+Theorem hidden_kept_when_nothing_visible raw :
+  (forall x, In x raw -> cd_hidden x = true) -> finish raw = dedup_ids [] raw.
+Proof.
+  intros H. unfold finish, hide_filter.
+  destruct (existsb (fun a => negb (cd_hidden a)) raw) eqn:E; [|reflexivity].
+  apply existsb_exists in E. destruct E as [x [Hx Hv]]. rewrite (H x Hx) in Hv. discriminate.
+Qed.
+
+(** the source has exactly the panic sites the model makes visible (table regenerated from
+    clap_complete/src/engine/complete.rs on every run) *)
+From ClapModel Require Gen.EngineSites.
+Theorem sites_match : Gen.EngineSites.engine_panic_sites = model_panic_sites.
+Proof. reflexivity. Qed.
